@@ -9,9 +9,10 @@ reference vlib/refmodels/dssp_ref.py (written from Kabsch & Sander 1983).
                     a != d, a != d-1 — exactly what kabsch_sander can emit), <= 2 acceptors per donor
   B  bridge motifs  n = 10: every set of <= 2 (3) of the paper's four two-bond bridge motifs at every (i,j),
                     plus <= 1 turn bond (i+k -> i, k = 3,4,5)
+  D  helix space    n = 10: every set of <= 4 (6) turn bonds (i+k -> i, k = 3,4,5): H/G/I priority, pi over alpha
   C  ladder pairs   n = 12 (thorough: also triples on n = 10): every set of <= 2 ladder templates (parallel /
                     antiparallel, both H-bond registers, 1..3 consecutive bridges at every position)
-  A: x chain break in {none, before residue 1..n-1} x one incomplete residue in {none, each residue not
+  A, D: x chain break in {none, before residue 1..n-1} x one incomplete residue in {none, each residue not
   touched by a bond};  B, C: x ({chain break before 1..n-1} + {one incomplete residue} + {neither});
   each x both slot orders of two-acceptor donors x CA trace in {straight, 90-degree corner at
   k = 2..n-3, coil (all bent)}.
@@ -36,12 +37,13 @@ MANIFEST = {
     "technique": "exhaustive enumeration of bounded H-bond pattern spaces through a kernel seam of dssp.cpp against a "
                  "from-the-paper DSSP rule engine, plus end-to-end comparison on structures",
     "text": "Rule engine of dssp.cpp (beta sheets/ladders/bulges, helices/turns, bends) called through a ctypes seam "
-            "(vlib/kern/dsspseam.cpp, compiled from the tree under test) on every member of three finite pattern spaces: "
+            "(vlib/kern/dsspseam.cpp, compiled from the tree under test) on every member of four finite pattern spaces: "
             "(A) all sets of <=3 (thorough <=4) admissible backbone H-bonds on n=5..8 residues, (B) all sets of <=2 (<=3) "
-            "bridge motifs + <=1 turn bond on n=10, (C) all sets of <=2 ladder templates on n=12 (thorough also <=3 on n=10); "
+            "bridge motifs + <=1 turn bond on n=10, (C) all sets of <=2 ladder templates on n=12 (thorough also <=3 on n=10), "
+            "(D) all sets of <=4 (<=6) turn bonds on n=10; "
             "each x chain-break position x one incomplete residue x slot order x CA trace (straight, corner at k, coil). "
             "Oracle: independent set-based DSSP reference written from Kabsch & Sander 1983 (vlib/refmodels/dssp_ref.py), "
-            "compared exactly per residue. End to end: 11 protein files and deterministic variants (perturbed frames, removed "
+            "compared exactly per residue. End to end: 11 files of tests/data, one constructed structure, and deterministic variants (perturbed frames, removed "
             "backbone atoms, inserted non-protein residues, extra chain boundaries): reference(md.kabsch_sander pattern, CA) == "
             "compute_dssp(simplified=False), simplified = 3-letter image, 'NA' exactly on incomplete residues, shape, "
             "per-frame independence. Right level: the property is a statement about a discrete rule system on H-bond "
@@ -156,6 +158,16 @@ def space_B(n, M):
     return sorted(seen), len(mot), len(turns) - 1
 
 
+def space_D(n, K):
+    """Helix space: every set of <= K turn bonds (i+k -> i, k = 3,4,5)."""
+    tb = [(i + k, i) for k in (3, 4, 5) for i in range(0, n - k)]
+    out = []
+    for m in range(K + 1):
+        for c in itertools.combinations(tb, m):
+            out.append(mask_of(n, c))
+    return out, len(tb)
+
+
 def ladder_templates(n):
     """Natural H-bond patterns of ladders: type x register x start (i,j) x 1..3 consecutive bridges."""
     out = set()
@@ -244,7 +256,7 @@ def _expected(b, bends_t):
 
 def _rules_chunk(item):
     space, n, masks, seed, repo = item
-    full_product = space == "A"      # A: break x incomplete; B, C: break + incomplete (one of the two at a time)
+    full_product = space in ("A", "D")   # A, D: break x incomplete; B, C: break + incomplete (one of the two at a time)
     L = _lib(repo)
     names, xyz, kap = traces(n, seed)
     T = len(names)
@@ -418,6 +430,31 @@ def overlap_second_strand(b):
 FILES = ["1bpi.pdb", "1vii.pdb", "2EQQ.pdb", "4ZUO.pdb", "1am7_protein.pdb", "native.pdb", "bpti.pdb", "4OH9.pdb",
          "aaqaa-wat.pdb", "1vii_sustiva_water.pdb", "2koc.pdb"]
 BB = ("N", "CA", "C", "O")
+# A constructed (non-physical) 10-residue backbone, atoms N, CA, C, O per residue (nm), whose Kabsch-Sander pattern is
+# exactly the parallel ladder (1,6),(2,7),(3,8) plus the parallel bridge (4,7): bonds (donor, acceptor) =
+# (2,6) (4,8) (5,7) (6,0) (7,3) (8,2), every energy > 0.2 kcal/mol away from the -0.5 threshold.  Found by numerical
+# optimisation (triage/C15.md); realises the "ladders overlap on the second strand" pattern class end to end.
+SYNTH = {"synthetic:ladder3+bridge": [
+    [0.527, 0.717, 0.49], [0.497, 0.566, 0.462], [0.436, 0.436, 0.397], [0.482, 0.341, 0.464], [0.702, 0.253, 0.65],
+    [0.676, 0.257, 0.504], [0.639, 0.27, 0.356], [0.672, 0.304, 0.236], [0.64, 0.557, 0.671], [0.782, 0.632, 0.72],
+    [0.938, 0.604, 0.715], [1.06, 0.546, 0.696], [0.537, 0.489, 0.31], [0.466, 0.465, 0.443], [0.564, 0.397, 0.544],
+    [0.646, 0.474, 0.511], [0.258, 0.511, 0.888], [0.352, 0.633, 0.862], [0.507, 0.681, 0.857], [0.6, 0.73, 0.885],
+    [0.492, 0.781, 0.782], [0.372, 0.703, 0.768], [0.326, 0.606, 0.88], [0.313, 0.504, 0.842], [0.489, 0.594, 0.414],
+    [0.559, 0.522, 0.524], [0.463, 0.4, 0.566], [0.475, 0.345, 0.662], [0.655, 0.444, 0.662], [0.653, 0.591, 0.742],
+    [0.714, 0.748, 0.842], [0.807, 0.781, 0.893], [0.758, 0.649, 0.815], [0.611, 0.591, 0.864], [0.483, 0.504, 0.873],
+    [0.556, 0.398, 0.851], [0.67, 0.738, 0.389], [0.586, 0.754, 0.259], [0.489, 0.781, 0.154], [0.394, 0.763, 0.064]]}
+
+
+def _synth_traj(name):
+    import mdtraj as md
+    x = np.array(SYNTH[name], dtype=np.float32)
+    top = md.Topology()
+    ch = top.add_chain()
+    for _i in range(len(x) // 4):
+        r = top.add_residue("GLY", ch)
+        for nm, el in (("N", "N"), ("CA", "C"), ("C", "C"), ("O", "O")):
+            top.add_atom(nm, md.element.get_by_symbol(el), r)
+    return md.Trajectory(x.reshape(1, -1, 3), top)
 
 
 def _first(res, name):
@@ -590,7 +627,8 @@ def _check_traj(L, label, vkind, tr, st, records, frames_independent=True):
             elif kind:
                 st["alt_used"][kind] = st["alt_used"].get(kind, 0) + 1
             else:
-                sig = "e2e|full-vs-reference|exp=%s|got=%s" % (_letters(exp[i] for i in bad), _letters(got[i] for i in bad))
+                sig = "e2e|full-vs-reference|exp=%s|got=%s|%s" % (_letters(exp[i] for i in bad),
+                                                                    _letters(got[i] for i in bad), _cls(b0, n, bonds))
                 lo, hi = max(0, bad[0] - 6), min(n, bad[0] + 7)
                 viol(sig, "frame %d residues %s: compute_dssp %r, reference %r (window %d..%d)" % (
                     f, bad[:8], "".join(c if c != "NA" else "*" for c in got[lo:hi]), exp[lo:hi], lo, hi - 1))
@@ -625,7 +663,7 @@ def _e2e_file(item):
           "compared_residues": 0, "excluded_near_threshold": 0, "min_kappa_dist_deg": 1e9, "flag_hist": {},
           "alt_used": {}, "dropped_linkorder": 0, "nontrivial_frames": 0, "outputs": set(), "letters": {}, "variants": []}
     records = []
-    t = md.load(os.path.join(repo, "tests/data", fname))
+    t = _synth_traj(fname) if fname in SYNTH else md.load(os.path.join(repo, "tests/data", fname))
     nF = 3 if quick else min(t.n_frames, 20)
     t = t[:nF]
     big = t.n_residues > 400
@@ -722,8 +760,8 @@ def run(ctx):
     quick = ctx.quick
     _lib(ctx.repo)
     items = []
-    for f in FILES:
-        if os.path.exists(os.path.join(ctx.repo, "tests/data", f)):
+    for f in FILES + sorted(SYNTH):
+        if f in SYNTH or os.path.exists(os.path.join(ctx.repo, "tests/data", f)):
             items.append(("e2e", f, quick, ctx.seed, ctx.repo))
     spaces = {}
     K = 3 if quick else 4
@@ -737,6 +775,11 @@ def run(ctx):
     spaces["B:n=10,<=%d of %d motifs,<=1 of %d turn bonds" % (MB, nmot, nturn)] = len(ms)
     for c in _chunks(ms, 1000):
         items.append(("rules", "B", 10, c, ctx.seed, ctx.repo))
+    KD = 4 if quick else 6
+    ms, ntb = space_D(10, KD)
+    spaces["D:n=10,<=%d of %d turn bonds" % (KD, ntb)] = len(ms)
+    for c in _chunks(ms, 500):
+        items.append(("rules", "D", 10, c, ctx.seed, ctx.repo))
     ms, ntpl = space_C(12, 2)
     spaces["C:n=12,<=2 of %d ladder templates" % ntpl] = len(ms)
     for c in _chunks(ms, 600):
@@ -800,7 +843,7 @@ def run(ctx):
     cov = {
         "evaluations": tot["evaluations"] + e_frames,
         "distinct_nontrivial": tot["nontrivial"] + sum(s["nontrivial_frames"] for s in e2e),
-        "rule": "layer 1: every member of the pattern spaces A, B, C (distinct bond sets by construction/dedup) x chain "
+        "rule": "layer 1: every member of the pattern spaces A, B, C, D (distinct bond sets by construction/dedup) x chain "
                 "break position x one incomplete residue among the residues without bonds x slot order x CA trace, seam output "
                 "compared exactly with the reference; a case (bond set, break, incomplete residue) is non-trivial if the "
                 "reference assigns at least one of H,B,E,G,I,T. layer 2: every frame of every file variant; non-trivial if the "
